@@ -64,7 +64,7 @@ Proof.
   destruct (f x) eqn:Efx.
   - cbn [length] in Hlen. destruct count as [|[|c]]; [lia| |].
     + cbn [firstn map last seek_after skipn]. rewrite lex_compare_refl. reflexivity.
-    + cbn [firstn map skipn].
+    + rewrite firstn_cons, map_cons, skipn_cons.
       assert (firstn (S c) (List.filter f r) <> []) as Hne.
       { apply firstn_nonempty; [lia|]. destruct (List.filter f r); [cbn in Hlen; lia|discriminate]. }
       assert (last (e_tail x :: map e_tail (firstn (S c) (List.filter f r))) []
